@@ -173,6 +173,10 @@ def main():
         inputs.append([("c.pn", src)])
     for src in faultgen.constant_hazards():
         inputs.append([("k.pn", src)])
+    # the pointer-advancing operator `..` (tests/samples/valid/pointer_arithmetic.pn) with every kind of right operand
+    for off in ("1", "1usize", "1i8", "true", "'a'", "&p", "p", "a", "x", "st", "-1", "1 + x", "f()"):
+        inputs.append([("p.pn", "struct S\n{\n\tm: i32,\n}\nfn f() -> usize\n{\n\treturn: 1\n}\nfn main() -> i32\n{\n\tvar a: [4]i32 = [1, 2, 3, 4];\n"
+                        "\tvar x: usize = 1;\n\tvar st = S { m: 1 };\n\tvar p: &[..]i32 = cast &a;\n\tvar q: &[..]i32 = &p .. %s;\n\treturn: q[0]\n}\n" % off)])
     # every builtin with 0..2 arguments that are defined, undefined, skipped by a goto, or of an odd type
     for b in ("print", "eprint", "format", "panic", "dbg", "file", "line", "abort", "include_bytes", "nosuchbuiltin"):
         for args in ("", "x", "u", "y", "x, x", '"a.txt"', "x, \"s\"", "arr", "st", "&x", "1", "-1i8", "true"):
